@@ -245,8 +245,20 @@ pub fn functions(tier: Tier) -> Vec<FnRep> {
     fs
 }
 
+/// extra messages for the thorough tier: 4-term linear, 3-entry quadratic over all values, 3-term polynomials over more monomials
+pub fn functions_deep() -> Vec<FnRep> {
+    let mut fs = gen_linear(&IDS3, &[1.0, -0.5], &[0.0, -1.5], 4);
+    fs.extend(gen_quadratic(&IDS3, &[0.0, 1.0, -0.5, 2.0], 3, &[None, Some((vec![(7, 2.0)], -1.5))], true).into_iter().filter(|f| matches!(f, FnRep::Quad { entries, .. } if entries.len() == 3)));
+    let monos: Vec<Vec<u64>> = monomials(&IDS3, 4).into_iter().step_by(3).collect();
+    fs.extend(gen_polynomial(&monos, &[1.0, -0.5], 3).into_iter().step_by(2));
+    fs
+}
+
 pub fn run(ctx: &Ctx) -> Finish {
-    let fs = functions(ctx.tier);
+    let mut fs = functions(Tier::Thorough);
+    if ctx.tier == Tier::Thorough {
+        fs.extend(functions_deep());
+    }
     let values = [-1.0, 0.0, 0.5, 2.0];
     ctx.note("functions", json!(fs.len()));
     ctx.par(fs.len(), |l, i| {
@@ -319,8 +331,8 @@ pub fn run(ctx: &Ctx) -> Finish {
         rule: "every function message of the bounded representation alphabet (all variants, unsorted/repeated terms, all 9 (row,col) positions, explicit zeros, absent/zero linear part) x every state over the value grid, plus the states lacking exactly one occurring id; non-trivial = non-zero polynomial and non-empty state".into(),
         bounds: json!({
             "ids": [1,2,7], "id_extremes": [0, 3, "u64::MAX"],
-            "linear_terms_max": ctx.tier.pick(2,3), "quadratic_entries_max": ctx.tier.pick(2,3),
-            "polynomial_terms_max": ctx.tier.pick(2,3), "degree_max": 4,
+            "linear_terms_max": ctx.tier.pick(3,4), "quadratic_entries_max": 3,
+            "polynomial_terms_max": 3, "degree_max": 4,
             "values": values, "nondyadic": {"coefficients": nc, "values": [0.3,-7.7,1e3]}
         }),
         exhaustive: true,
